@@ -48,6 +48,15 @@ def strategy_(draw):
                 spec['cfg']['bootstrap_factor'] = 0.5
             spec['cfg']['bootstrap_factor_lookup'] = None
         t['n_new'] = draw(st.integers(0, 8))
+        if draw(st.integers(0, 3)) == 0:
+            # a few cells, hundreds of new (almost empty) genes: fewer stored values than genes, on both sides of 255
+            keep_n = draw(st.integers(1, min(3, n)))
+            spec['query']['cells'] = list(spec['query']['cells'])[:keep_n]
+            spec['query']['zero_rows'] = [r for r in spec['query'].get('zero_rows', []) if r < keep_n]
+            spec['query']['density'] = 0.4
+            spec['query']['enc'] = draw(st.sampled_from(['csc', 'csc', 'csr']))
+            t['n_new'] = draw(st.integers(240, 300))
+            t['new_density'] = draw(st.sampled_from([0.0, 0.01, 0.03]))
         t['drop_nonmarkers'] = draw(st.booleans())
         t['add_unused_ref'] = draw(st.booleans())
         t['seed'] = draw(st.integers(0, 2**31 - 1))
@@ -61,7 +70,7 @@ def strategy_(draw):
             spec['query']['rechunk'] = draw(st.sampled_from([[1, 1], [2, 3], [3, 1000], [1000, 2], [4, 4], [5, 3], [7, 7]]))
         t['row'] = draw(st.integers(0, n - 1))
         t['col'] = draw(st.integers(0, g - 1))
-        t['value'] = draw(st.sampled_from([-1, -3, -0.5, -1e-3]))
+        t['value'] = draw(st.sampled_from([-1, -3, -0.5, -1e-3, -1e-7, -1e-12, -1e-30]))
         if 'int' in spec['query']['dtype']:
             t['value'] = int(min(-1, t['value']))
     spec['transform'] = t
@@ -122,7 +131,10 @@ def check(spec):
         if t['add_unused_ref']:
             new += [gname for gname in spec['ref']['genes'] if gname not in mk and gname not in gb][:2]
         if new:
-            xb = np.hstack([xb, (rng.random((x.shape[0], len(new))) * 9).astype(x.dtype)])
+            vals = rng.random((x.shape[0], len(new))) * 9
+            if 'new_density' in t:
+                vals = vals * (rng.random(vals.shape) < t['new_density'])
+            xb = np.hstack([xb, vals.astype(x.dtype)])
             gb = gb + new
         if t['shuffle']:
             p = rng.permutation(len(gb))
